@@ -76,6 +76,21 @@ func (d *Drv) regObs(op *Op) {
 	}
 	d.touched[slot] = true
 	d.Obs[slot].epoch++
+	if !d.NoBystander && (d.opIdx+slot)%3 == 0 {
+		// an observer object is not bound to a world: it may have served in another world (where its components have
+		// other IDs) before it is registered here
+		if d.by == nil {
+			d.by = newBystander()
+		}
+		d.Stat.ObserverReuse++
+		if d.Obs[slot].typ != nil {
+			d.Obs[slot].typ.Register(d.by.w)
+			d.Obs[slot].typ.Unregister(d.by.w)
+		} else {
+			d.Obs[slot].gen.Register(d.by.w)
+			d.Obs[slot].gen.Unregister(d.by.w)
+		}
+	}
 	if d.Obs[slot].typ != nil {
 		d.Obs[slot].typ.Register(d.W)
 	} else {
@@ -491,6 +506,29 @@ func (d *Drv) Sweep(deep bool) {
 		}
 		if deep {
 			d.deepEntity(id, h, st)
+		}
+	}
+	// handles of entities removed by Reset are not alive (C02, C16): checked for handles whose ID has not been issued again
+	// since the Reset (once the ID is in use again, an old ID/generation pair is indistinguishable from a current or
+	// future handle by design)
+	if m.Epoch0 > 0 {
+		maxID := uint32(0)
+		for i := m.Epoch0; i < len(d.H); i++ {
+			if !d.H[i].IsZero() && d.H[i].ID() > maxID {
+				maxID = d.H[i].ID()
+			}
+		}
+		n := 0
+		for i := m.Epoch0 - 1; i >= 0 && n < 6; i-- {
+			if i >= len(d.H) || d.H[i].IsZero() || d.H[i].ID() <= maxID {
+				continue
+			}
+			n++
+			d.Stat.EntChecks++
+			if d.W.Alive(d.H[i]) {
+				d.viol("C16", "alive-after-reset", "handle %v of an entity removed by Reset (EID %d) is reported alive", d.H[i], i)
+				break
+			}
 		}
 	}
 	// the component registry keeps what it said about every universe type (C18)
